@@ -55,6 +55,7 @@ type vtCase struct {
 	Shape   string   `json:"shape"`   // graph cases: "" tools -> END | "branch" non-stream branch condition + invokable successor |
 	// "fanout" two invokable successors | "callback" a callback handler on the tools node + an invokable successor: in the stream
 	// form the node's output is then concatenated by two consumers that share the frames
+	EOFWrap bool     `json:"eofwrap"` // the error a stream fails with in the middle has io.EOF in its chain
 	Deep    bool     `json:"deep"`    // panicking tools panic from a deep recursion (long unwinding widens the window after the panic)
 	JSONArg bool     `json:"jsonargs"` // arguments are JSON objects {"v":..,"o":..} ("o" omitted in some calls); with wrap, the tools are built
 	// by components/tool/utils with the DEFAULT unmarshalling into a pointer-to-struct (ta, tc) or map (tb) input
@@ -92,6 +93,12 @@ func (r *vtRun) doPanic(v string) {
 type vtErr struct{ Name, Args string }
 
 func (e *vtErr) Error() string { return "vferr[" + e.Name + "|" + e.Args + "]" }
+
+// vtEOFErr is a tool's stream error whose chain contains io.EOF (e.g. "connection reset: EOF"): still an error, not the end of the stream
+type vtEOFErr struct{ Name, Args string }
+
+func (e *vtEOFErr) Error() string { return "vferr[" + e.Name + "|" + e.Args + "] conn reset: EOF" }
+func (e *vtEOFErr) Unwrap() error { return io.EOF }
 
 var vtErrRe = regexp.MustCompile(`vferr\[([^|\]]*)\|([^\]]*)\]`)
 
@@ -217,7 +224,7 @@ func (r *vtRun) invokable(name, args, beh string, handler bool) (string, error) 
 }
 
 // body of the streamable form of a tool
-func (r *vtRun) streamable(name, args, beh string, nchunks int) (*schema.StreamReader[string], error) {
+func (r *vtRun) streamable(ctx context.Context, name, args, beh string, nchunks int) (*schema.StreamReader[string], error) {
 	inv := r.enter(name, args)
 	r.wait(inv)
 	switch beh {
@@ -248,20 +255,41 @@ func (r *vtRun) streamable(name, args, beh string, nchunks int) (*schema.StreamR
 	} else {
 		r.emit("tend", "name", name, "args", args, "h", false, "res", "ok", "out", strings.Join(chunks, ""))
 	}
+	// the chunks are produced asynchronously, after StreamableRun has returned; like a well-behaved tool the producer looks at its
+	// context between chunks and gives up (with the context's error) when it has been cancelled
+	cancelled := func() bool {
+		if ctx == nil || ctx.Err() == nil {
+			return false
+		}
+		sw.Send("", ctx.Err())
+		sw.Close()
+		inv.acked()
+		return true
+	}
 	go func() {
 		defer atomic.AddInt32(&r.active, -1)
 		if beh == "failmid" {
 			r.wait(inv)
+			if cancelled() {
+				return
+			}
 			sw.Send(chunks[0], nil)
 			inv.acked()
 			r.wait(inv)
-			sw.Send("", &vtErr{name, args})
+			if r.c.EOFWrap {
+				sw.Send("", &vtEOFErr{name, args})
+			} else {
+				sw.Send("", &vtErr{name, args})
+			}
 			sw.Close()
 			inv.acked()
 			return
 		}
 		for k, ch := range chunks {
 			r.wait(inv)
+			if cancelled() {
+				return
+			}
 			sw.Send(ch, nil)
 			if k == len(chunks)-1 {
 				sw.Close()
@@ -291,7 +319,7 @@ func (t *vtInvTool) InvokableRun(ctx context.Context, args string, _ ...tool.Opt
 type vtStrTool struct{ vtBase }
 
 func (t *vtStrTool) StreamableRun(ctx context.Context, args string, _ ...tool.Option) (*schema.StreamReader[string], error) {
-	return t.r.streamable(t.t.Name, args, t.t.Beh, t.t.Chunks)
+	return t.r.streamable(ctx, t.t.Name, args, t.t.Beh, t.t.Chunks)
 }
 
 type vtBothTool struct{ vtBase }
@@ -301,7 +329,7 @@ func (t *vtBothTool) InvokableRun(ctx context.Context, args string, _ ...tool.Op
 }
 
 func (t *vtBothTool) StreamableRun(ctx context.Context, args string, _ ...tool.Option) (*schema.StreamReader[string], error) {
-	return t.r.streamable(t.t.Name, args, t.t.Beh, t.t.Chunks)
+	return t.r.streamable(ctx, t.t.Name, args, t.t.Beh, t.t.Chunks)
 }
 
 // ------------------------------------------------------------------------------------------------ controller
@@ -527,7 +555,7 @@ func vtRunCaseBody(r *vtRun) []string {
 	if sched == nil {
 		sched = []int{}
 	}
-	r.emit("case", "id", c.ID, "mode", c.Mode, "graph", c.Graph, "handler", c.Handler, "calls", calls, "tools", tools, "sched", sched, "wrap", c.Wrap, "optlist", c.OptList, "deep", c.Deep, "jsonargs", c.JSONArg, "shape", c.Shape)
+	r.emit("case", "id", c.ID, "mode", c.Mode, "graph", c.Graph, "handler", c.Handler, "calls", calls, "tools", tools, "sched", sched, "wrap", c.Wrap, "optlist", c.OptList, "deep", c.Deep, "jsonargs", c.JSONArg, "shape", c.Shape, "eofwrap", c.EOFWrap)
 
 	ctx := context.Background()
 	bts := make([]tool.BaseTool, 0, len(c.Tools))
@@ -549,16 +577,16 @@ func vtRunCaseBody(r *vtRun) []string {
 				return r.invokable(t.Name, vtCanon(a.V, a.O), t.Beh, false)
 			}, ms))
 		case t.Kind == "str" && c.Wrap && c.JSONArg:
-			bts = append(bts, toolutils.NewStreamTool(info, func(_ context.Context, a *vtIn) (*schema.StreamReader[string], error) {
-				return r.streamable(t.Name, vtCanon(a.V, a.O), t.Beh, t.Chunks)
+			bts = append(bts, toolutils.NewStreamTool(info, func(ctx context.Context, a *vtIn) (*schema.StreamReader[string], error) {
+				return r.streamable(ctx, t.Name, vtCanon(a.V, a.O), t.Beh, t.Chunks)
 			}, ms))
 		case t.Kind == "inv" && c.Wrap:
 			bts = append(bts, toolutils.NewTool(info, func(_ context.Context, a string) (string, error) {
 				return r.invokable(t.Name, a, t.Beh, false)
 			}, um, ms))
 		case t.Kind == "str" && c.Wrap:
-			bts = append(bts, toolutils.NewStreamTool(info, func(_ context.Context, a string) (*schema.StreamReader[string], error) {
-				return r.streamable(t.Name, a, t.Beh, t.Chunks)
+			bts = append(bts, toolutils.NewStreamTool(info, func(ctx context.Context, a string) (*schema.StreamReader[string], error) {
+				return r.streamable(ctx, t.Name, a, t.Beh, t.Chunks)
 			}, um, ms))
 		case t.Kind == "inv":
 			bts = append(bts, &vtInvTool{b})
